@@ -399,6 +399,16 @@ impl PeerDHTRecord {
 
     /// Verify the record signature
     pub fn verify_signature(&self) -> Result<()> {
+        // The user ID must be the one derived from the embedded public key;
+        // otherwise anyone could publish a record under someone else's ID.
+        if self.user_id != UserId::from_public_key(&self.public_key) {
+            return Err(P2PError::Security(
+                SecurityError::SignatureVerificationFailed(
+                    "User ID does not match public key".to_string().into(),
+                ),
+            ));
+        }
+
         let message = self.create_signable_message()?;
         let ok = crate::quantum_crypto::ml_dsa_verify(&self.public_key, &message, &self.signature)
             .map_err(|e| {
